@@ -57,6 +57,14 @@ type aeCase struct {
 	loop            int
 	frames          []aeFrame
 	subimage        bool // pictures are handed over as SubImages of a larger NRGBA (probe stream)
+	// reuse: the caller owns ONE canvas-sized *image.NRGBA (Rect(0,0,w,h), Stride 4w) for the whole
+	// sequence; every canvas-sized frame is copied into it and that same buffer is handed to AddFrame
+	// (a render loop). scribble: the buffer is overwritten with garbage as soon as AddFrame has returned.
+	// The encoder must not retain the buffer: the run must equal the fresh-picture run of the same case.
+	reuse, scribble bool
+	// threshold / wide-row stream bookkeeping
+	thr     *ThresholdCase
+	wideTag string
 	// generator bookkeeping (distribution only)
 	alphaCls, durCls string
 	genSteps         []string
@@ -77,6 +85,19 @@ func (c *aeCase) mode() string {
 		s += "+mixed"
 	}
 	return s
+}
+
+// handover describes how the pictures reach AddFrame ("" = a fresh picture per frame).
+func (c *aeCase) handover() string {
+	switch {
+	case c.subimage:
+		return " subimage"
+	case c.scribble:
+		return " reuse+scribble"
+	case c.reuse:
+		return " reuse"
+	}
+	return ""
 }
 
 func (c *aeCase) framesArg() string {
@@ -107,7 +128,7 @@ func (c *aeCase) input(line, oracle string) map[string]any {
 	}
 	return map[string]any{"op": "animenc", "w": c.w, "h": c.h, "lossless": c.lossless, "mixed": c.mixed,
 		"quality": c.quality, "kmin": c.kmin, "kmax": c.kmax, "loop": c.loop, "frames": fr,
-		"subimage": c.subimage, "line": line, "oracle": oracle}
+		"subimage": c.subimage, "reuse": c.reuse, "scribble": c.scribble, "line": line, "oracle": oracle}
 }
 
 func aeNum(v any) (int, bool) {
@@ -136,6 +157,11 @@ func aeCaseFromInput(in map[string]any) (*aeCase, bool) {
 	c.lossless, _ = in["lossless"].(bool)
 	c.mixed, _ = in["mixed"].(bool)
 	c.subimage, _ = in["subimage"].(bool)
+	c.reuse, _ = in["reuse"].(bool)
+	c.scribble, _ = in["scribble"].(bool)
+	if c.scribble {
+		c.reuse = true
+	}
 	fr, _ := in["frames"].([]any)
 	for _, x := range fr {
 		m, good := x.(map[string]any)
@@ -393,6 +419,25 @@ type aeGo struct {
 	viol       []aeViolation
 	// sub-image probe: what the same sequence violates when handed over as plain pictures
 	plain map[string]bool
+	// caller-buffer ownership
+	aliasHook bool      // the verif hook VerifSharesPrevCanvas exists (new file animation/verif_alias.go)
+	played    *aePlayed // playback of g.out (kept only until the reuse comparison is done)
+}
+
+// aeAliasHook is implemented by *animation.AnimEncoder when /repo/animation/verif_alias.go is present
+// (looked up at run time so that the harness also builds against a tree without that file).
+type aeAliasHook interface {
+	VerifSharesPrevCanvas(img *image.NRGBA) bool
+}
+
+// aeOwnership: a broken ownership assumption is a C08 violation for lossless non-mixed sequences (the
+// played pictures are wrong); in the other modes it breaks the tie between the model - which works on
+// values - and the implementation, for both properties.
+func aeOwnership(c *aeCase, sig, detail string) aeViolation {
+	if c.lossless && !c.mixed {
+		return aeViolation{"property", "C08", sig, detail}
+	}
+	return aeViolation{"correspondence", "", sig, detail}
 }
 
 // aeRunFull: encoder run plus all Go-only checks; for the sub-image probe also the plain run of the
@@ -400,6 +445,14 @@ type aeGo struct {
 func aeRunFull(c *aeCase) *aeGo {
 	g := aeRun(c)
 	aeFinish(c, g)
+	if c.reuse && !c.subimage {
+		fc := c.clone()
+		fc.reuse, fc.scribble = false, false
+		fg := aeRun(fc)
+		aeFinish(fc, fg)
+		aeReuseCompare(c, g, fg)
+	}
+	g.played = nil
 	if c.subimage {
 		pc := c.clone()
 		pc.subimage = false
@@ -411,6 +464,47 @@ func aeRunFull(c *aeCase) *aeGo {
 		}
 	}
 	return g
+}
+
+// aeReuseCompare is the metamorphic oracle of the reuse / scribble flavour: trace line, oracle bits,
+// file bytes and played-back pictures must equal those of the fresh-picture run of the same case.
+func aeReuseCompare(c *aeCase, g, fg *aeGo) {
+	how := "one canvas-sized *image.NRGBA reused for every AddFrame"
+	if c.scribble {
+		how += ", overwritten with garbage after every AddFrame"
+	}
+	var diffs []string
+	if g.line != fg.line || g.panicMsg != fg.panicMsg {
+		diffs = append(diffs, fmt.Sprintf("trace: reuse %q %s, fresh %q %s", short(g.line, 300), g.panicMsg, short(fg.line, 300), fg.panicMsg))
+	}
+	if g.oracle != fg.oracle {
+		diffs = append(diffs, fmt.Sprintf("codec size comparisons: reuse %s, fresh %s", g.oracle, fg.oracle))
+	}
+	if strings.Join(g.kinds, ",") != strings.Join(fg.kinds, ",") {
+		diffs = append(diffs, fmt.Sprintf("steps: reuse %s, fresh %s", strings.Join(g.kinds, ","), strings.Join(fg.kinds, ",")))
+	}
+	if !bytes.Equal(g.out, fg.out) {
+		d := fmt.Sprintf("file bytes: reuse %s, fresh %s", digest(g.out), digest(fg.out))
+		if a, b := g.played, fg.played; a != nil && b != nil {
+			switch {
+			case a.err != b.err:
+				d += fmt.Sprintf("; playback: reuse %q, fresh %q", a.err, b.err)
+			case len(a.canv) != len(b.canv):
+				d += fmt.Sprintf("; played pictures: reuse %d, fresh %d", len(a.canv), len(b.canv))
+			default:
+				for k := range a.canv {
+					if !bytes.Equal(a.canv[k], b.canv[k]) || a.durs[k] != b.durs[k] {
+						d += fmt.Sprintf("; played picture %d of %d differs (durations %d / %d ms)", k, len(a.canv), a.durs[k], b.durs[k])
+						break
+					}
+				}
+			}
+		}
+		diffs = append(diffs, d)
+	}
+	if len(diffs) > 0 {
+		g.viol = append(g.viol, aeOwnership(c, "animenc:reuse-differs", how+": the run differs from the run of the same frames handed over as fresh pictures: "+strings.Join(diffs, "; ")))
+	}
 }
 
 // source is the recorded codec call whose output became emitted frame k (nil: unknown).
@@ -579,10 +673,33 @@ func aeRunInner(c *aeCase, g *aeGo, memo bool) string {
 	var bits []string
 	var st animation.VerifEncState
 	emit := map[int]int{} // emitted frame -> codec call kept for it
+	var reuseBuf *image.NRGBA
+	if c.reuse && !c.subimage {
+		reuseBuf = image.NewNRGBA(image.Rect(0, 0, c.w, c.h))
+	}
+	alias, _ := any(enc).(aeAliasHook)
+	g.aliasHook = alias != nil
+	aliased := false
 	for i := range c.frames {
 		lo := len(rec.calls)
 		fcBefore := enc.VerifState().FrameCount
-		err := enc.AddFrame(c.image(i), time.Duration(c.frames[i].dur)*time.Millisecond)
+		img := c.image(i)
+		if f := c.frames[i]; reuseBuf != nil && f.w == c.w && f.h == c.h {
+			copy(reuseBuf.Pix, f.pix) // the caller redraws its buffer
+			img = reuseBuf
+		}
+		err := enc.AddFrame(img, time.Duration(c.frames[i].dur)*time.Millisecond)
+		if alias != nil && !aliased && alias.VerifSharesPrevCanvas(img) {
+			aliased = true
+			g.viol = append(g.viol, aeOwnership(c, "animenc:aliases-caller-buffer",
+				fmt.Sprintf("after AddFrame %d of %d returned (error: %v) the encoder's reference canvas shares memory with the picture that was handed over (%dx%d, Rect.Min %v, Stride %d): later writes of the caller change the encoder state",
+					i, len(c.frames), err, img.Rect.Dx(), img.Rect.Dy(), img.Rect.Min, img.Stride)))
+		}
+		if c.scribble && reuseBuf != nil {
+			for k := range reuseBuf.Pix {
+				reuseBuf.Pix[k] = byte(0xa7 + 13*k + 31*i + k>>8) // never a picture of the sequence, different after every frame
+			}
+		}
 		if err != nil {
 			g.notes = append(g.notes, fmt.Sprintf("AddFrame %d: %v", i, err))
 			return "err addframe"
@@ -802,6 +919,7 @@ func aeFinish(c *aeCase, g *aeGo) {
 	}
 	_, pm := guard(func() string {
 		pl := aePlay(g.out)
+		g.played = &pl
 		aeRoundTrip(c, g, pl.imgs)
 		aeProps(c, g, pl)
 		return ""
@@ -1109,15 +1227,31 @@ func aeShrink(c *aeCase, v aeViolation, budget int) (*aeCase, aeViolation) {
 			return false
 		}
 		budget--
-		_, _, vs, err := aeEvaluate(n)
-		if err != nil {
-			return false
+		var vs []aeViolation
+		if v.kind == "correspondence" && strings.HasPrefix(v.sig, "animenc-model:") {
+			var err error
+			if _, _, vs, err = aeEvaluate(n); err != nil {
+				return false
+			}
+		} else {
+			vs = aeJudge(n, aeRunFull(n), "") // Go-only oracle: no driver process per attempt
 		}
 		if x, ok := aeHas(vs, v); ok {
 			cur, curV = n, x
 			return true
 		}
 		return false
+	}
+	// simpler hand-over flavour: no garbage, then fresh pictures
+	if cur.scribble {
+		n := cur.clone()
+		n.scribble = false
+		try(n)
+	}
+	if cur.reuse && !cur.scribble {
+		n := cur.clone()
+		n.reuse = false
+		try(n)
 	}
 	for progress := true; progress && budget > 0; {
 		progress = false
@@ -1242,8 +1376,10 @@ func (r *aeReporter) report(c *aeCase, v aeViolation) {
 		detail += fmt.Sprintf(" [shrunk from %dx%d, %d frames]", c.w, c.h, len(c.frames))
 	}
 	if v.kind == "property" {
-		detail += fmt.Sprintf(" [%s q=%d kmin=%d kmax=%d loop=%d; steps %s; go %s]", sc.mode(), sc.quality, sc.kmin, sc.kmax, sc.loop,
+		detail += fmt.Sprintf(" [%s q=%d kmin=%d kmax=%d loop=%d%s; steps %s; go %s]", sc.mode(), sc.quality, sc.kmin, sc.kmax, sc.loop, sc.handover(),
 			strings.Join(sg.kinds, ","), short(sg.line, 400))
+	} else if sc.reuse {
+		detail += " [" + strings.TrimSpace(sc.handover()) + "]"
 	}
 	r.rep.Add(Finding{Kind: v.kind, Property: v.prop, Signature: v.sig, Detail: detail, Input: sc.input(line, sg.oracle)})
 }
@@ -1276,6 +1412,7 @@ func aeSequences(rep *Report, rp *aeReporter, n int, subimage bool, gen func(i i
 		hi := mini(n, lo+batch)
 		cases := make([]*aeCase, hi-lo)
 		gos := make([]*aeGo, hi-lo)
+		tGo := time.Now()
 		aeParallel(hi-lo, func(i int) {
 			c := gen(lo + i)
 			c.subimage = subimage
@@ -1290,11 +1427,16 @@ func aeSequences(rep *Report, rp *aeReporter, n int, subimage bool, gen func(i i
 			lines[i] = c.leanLine(gos[i].oracle)
 		}
 		var lean []string
+		dGo := time.Since(tGo)
+		tLean := time.Now()
 		if !subimage {
 			var err error
 			if lean, err = RunDriver(lines); err != nil {
 				return err
 			}
+		}
+		if os.Getenv("VCHECK_ANIMENC_TIMING") != "" {
+			fmt.Fprintf(os.Stderr, "animenc: batch of %d: go %.2fs, driver %.2fs\n", hi-lo, dGo.Seconds(), time.Since(tLean).Seconds())
 		}
 		pre := ""
 		if subimage {
@@ -1309,6 +1451,44 @@ func aeSequences(rep *Report, rp *aeReporter, n int, subimage bool, gen func(i i
 			rep.Count(pre + "duration:" + c.durCls)
 			rep.Count(pre + "canvas:" + aeCanvasBucket(c.w, c.h))
 			if !subimage {
+				ho := "fresh"
+				if c.reuse {
+					ho = strings.TrimSpace(c.handover())
+				}
+				rep.Count("handover:" + ho)
+				if c.reuse {
+					// the history the ownership assumption matters for: a key frame other than the first,
+					// followed by another distinct picture
+					later := false
+					for k := 1; k+1 < len(g.kinds) && k+1 < len(g.placed); k++ {
+						if g.kinds[k] == "key" || g.kinds[k] == "key-fallback" {
+							for j := k + 1; j < len(g.placed); j++ {
+								if !bytes.Equal(g.placed[j], g.placed[k]) {
+									later = true
+								}
+							}
+						}
+					}
+					if later {
+						rep.Count("handover:" + ho + ":key-frame-then-new-picture")
+					}
+				}
+				if c.thr != nil {
+					CountThreshold(rep, *c.thr)
+					rep.Count(fmt.Sprintf("threshold-case:%s:%s", c.thr.String(), c.mode()))
+				}
+				if c.wideTag != "" {
+					rep.Count("wide:" + c.wideTag + ":" + c.mode())
+					for k, fi := range g.frames {
+						if k > 0 && (fi.Width > 1024 || fi.Height > 1024) {
+							d := "dispose-none"
+							if g.frames[k-1].DisposeMode == mux.DisposeBackground {
+								d = "after-dispose-background"
+							}
+							rep.Count("wide:sub-frame>1024:" + d)
+						}
+					}
+				}
 				rep.Count(fmt.Sprintf("quality:%d", c.quality))
 				rep.Count(fmt.Sprintf("kmax:%d", c.kmax))
 				for _, s := range c.genSteps {
@@ -1409,6 +1589,10 @@ func aeCanvasBucket(w, h int) string {
 		return "<=16px"
 	case w*h <= 100:
 		return "<=100px"
+	case w > 1024 || h > 1024:
+		return "side>1024"
+	case w*h > 576:
+		return "side<=1024,>576px"
 	}
 	return "<=576px"
 }
@@ -1416,30 +1600,41 @@ func aeCanvasBucket(w, h int) string {
 func suiteAnimEnc(rep *Report) error {
 	aeInstallHooks()
 	rich := rep.Tier == "thorough"
-	rep.Rule = "frame sequences for the real animation.AnimEncoder built from (seed, case index): canvases 1..24 x 1..24 biased to 1x1, 2x2, 1xn and odd sizes; 1-6 frames (thorough: 5% with 7-40); every frame derived from its predecessor by exact repeat, one-pixel / block / >90% / completely new change, colour change of fully transparent pixels, clearing a region, making the previous change transparent again, small colour deltas, or a picture smaller/larger than the canvas; alpha opaque / binary / semi-transparent (128, random); durations small, 0, near 2^24 with repeats (filler frames) and a counted out-of-domain share (negative, 2^24, 2^31); Kmin/Kmax in {0,1,2,3,9}; loop in {0,1,7,65535,-3,65536,100000}; lossless/lossy x AllowMixed x quality {0,10,50,75,90,100}; plus fixed NewEncoder/Close error and canvas-limit cases. Every size comparison of the encoder is observed on the real codec (recording wrappers around FrameEncoderFunc/SimpleEncodeFunc) and passed to the Lean model as oracle bit; the Go trace line (demuxed file + VerifState) must equal the model's line; the file is played back (DecodeBytes/DecodeFrames/AnimDecoder) and compared with the inputs (C08 for lossless non-mixed: pictures, per-picture display time, total, loop; C18 in every mode: alpha planes - split by root cause into frame-codec and encoder arithmetic - and ALPH presence). Plus unit correspondences of findChangedRect, snapToEven, blending predicates, qualityToMaxDiff (all 101), sanitizeKeyframeOptions, clampLoopCount, splitAlphaAndBitstream; a sub-image probe stream (properties only, differential against the same sequence as plain pictures); exhaustive two-frame 2x2 blocks with alpha {0,128,255} x two colours (quick: 4 lossless + 2 lossy first canvases, thorough: all 1296x1296 lossless and lossy; codec calls memoised per picture, every 1009th hit re-checked). non-trivial = at least 2 distinct pictures"
+	rep.Rule = "frame sequences for the real animation.AnimEncoder built from (seed, case index): canvases 1..24 x 1..24 biased to 1x1, 2x2, 1xn and odd sizes; 1-6 frames (thorough: 5% with 7-40); every frame derived from its predecessor by exact repeat, one-pixel / block / >90% / completely new change, colour change of fully transparent pixels, clearing a region, making the previous change transparent again, small colour deltas, or a picture smaller/larger than the canvas; alpha opaque / binary / semi-transparent (128, random); durations small, 0, near 2^24 with repeats (filler frames) and a counted out-of-domain share (negative, 2^24, 2^31); Kmin/Kmax in {0,1,2,3,9}; loop in {0,1,7,65535,-3,65536,100000}; lossless/lossy x AllowMixed x quality {0,10,50,75,90,100}; plus fixed NewEncoder/Close error and canvas-limit cases. Hand-over of the pictures: a fresh picture per AddFrame, or (1 case in 4 of the main stream; every case of the reuse stream = Kmax 1..3, at least Kmax+2 frames; 1 in 4 of the wide stream) ONE canvas-sized *image.NRGBA of the caller that is redrawn before every AddFrame, half of those overwritten with garbage as soon as AddFrame has returned - such a run must equal the fresh-picture run of the same case in trace line, codec size comparisons, file bytes and played pictures (animenc:reuse-differs), all other oracles judge the pictures as they were at AddFrame time, and after every AddFrame of every stream the encoder's reference canvas must not share memory with the picture handed over (animenc:aliases-caller-buffer, verif hook VerifSharesPrevCanvas). Threshold / wide-row stream: per run 8 canvases drawn from the width / height thresholds >= 256 of thresholds.go (t-1, t, t+1 x {2,3}, widths up to 4200) plus 4 of WideWidths x {2,3} (thorough: all, three sequences each), 2-4 frames of cheap content (first picture flat / gradient / sparse / rows, then a line along the long side, pixels at both ends, a segment across a multiple of 1024, erase-the-last-change + dots, ...), lossless and lossy alternating, so that changed rectangles, blending scans and the dispose-to-background candidate work on rows longer than 1024 pixels (counted: wide:sub-frame>1024:*). Every size comparison of the encoder is observed on the real codec (recording wrappers around FrameEncoderFunc/SimpleEncodeFunc) and passed to the Lean model as oracle bit; the Go trace line (demuxed file + VerifState) must equal the model's line; the file is played back (DecodeBytes/DecodeFrames/AnimDecoder) and compared with the inputs (C08 for lossless non-mixed: pictures, per-picture display time, total, loop; C18 in every mode: alpha planes - split by root cause into frame-codec and encoder arithmetic - and ALPH presence). Plus unit correspondences of findChangedRect, snapToEven, blending predicates, qualityToMaxDiff (all 101), sanitizeKeyframeOptions, clampLoopCount, splitAlphaAndBitstream; a sub-image probe stream (properties only, differential against the same sequence as plain pictures); exhaustive two-frame 2x2 blocks with alpha {0,128,255} x two colours (quick: 4 lossless + 2 lossy first canvases, thorough: all 1296x1296 lossless and lossy; codec calls memoised per picture, every 1009th hit re-checked). non-trivial = at least 2 distinct pictures"
 	rp := newAeReporter(rep)
 	t0 := time.Now()
 	lap := func(name string) {
 		rep.Extra["wall_"+name+"_s"] = time.Since(t0).Seconds()
 		fmt.Fprintf(os.Stderr, "animenc: %s done after %.1fs\n", name, time.Since(t0).Seconds())
 	}
-	only := os.Getenv("VCHECK_ANIMENC_ONLY") // debugging aid: units|sequences|subimage|exhaustive
+	only := os.Getenv("VCHECK_ANIMENC_ONLY") // debugging aid: units|sequences|reuse|wide|subimage|exhaustive
 	if only != "" {
 		rep.Notes = append(rep.Notes, "partial run: VCHECK_ANIMENC_ONLY="+only)
 	}
 	skip := func(name string) bool { return only != "" && only != name }
+	if probe := animation.NewEncoder(&bytes.Buffer{}, 1, 1, nil); probe != nil {
+		if _, ok := any(probe).(aeAliasHook); ok {
+			rep.Count("alias-hook:present")
+		} else {
+			rep.Count("alias-hook:absent")
+			rep.Notes = append(rep.Notes, "animation.(*AnimEncoder).VerifSharesPrevCanvas (animation/verif_alias.go) is missing in the tree under test: the structural check animenc:aliases-caller-buffer is skipped, caller-buffer ownership is judged by the reuse/scribble runs only")
+		}
+	}
 	if !skip("units") {
 		if err := aeUnits(rep, rich); err != nil {
 			return err
 		}
 	}
 	lap("units")
-	nSeq, nSub := 300, 40
+	nSeq, nSub, nReuse := 300, 40, 80
 	if rich {
-		nSeq, nSub = 10000, 600
+		nSeq, nSub, nReuse = 10000, 600, 2500
 	}
 	if skip("sequences") {
 		nSeq = 0
+	}
+	if skip("reuse") {
+		nReuse = 0
 	}
 	if skip("subimage") {
 		nSub = 0
@@ -1451,10 +1646,37 @@ func suiteAnimEnc(rep *Report) error {
 	if err := aeSequences(rep, rp, len(edge), false, func(i int) *aeCase { return edge[i] }); err != nil {
 		return err
 	}
-	if err := aeSequences(rep, rp, nSeq, false, func(i int) *aeCase { return aeGenCase(NewRNG(rep.Seed, uint64(i)), rich) }); err != nil {
+	// main stream: the cases are those of (seed, index) as before; a second generator decides how the
+	// pictures are handed over (1 in 4: one reused caller buffer, half of those scribbled on)
+	if err := aeSequences(rep, rp, nSeq, false, func(i int) *aeCase {
+		c := aeGenCase(NewRNG(rep.Seed, uint64(i)), rich)
+		if fr := NewRNG(rep.Seed, uint64(60_000_000+i)); fr.Chance(1, 4) {
+			c.reuse, c.scribble = true, fr.Bool()
+		}
+		return c
+	}); err != nil {
 		return err
 	}
 	lap("sequences")
+	// reuse stream: forced key frames (Kmax 1..3), enough frames for one more picture after the first
+	// non-initial key frame, always one reused caller buffer (odd indices: scribbled on)
+	if err := aeSequences(rep, rp, nReuse, false, func(i int) *aeCase {
+		c := aeGenCaseOpt(NewRNG(rep.Seed, uint64(61_000_000+i)), rich, aeGenOpt{keyframes: true})
+		c.reuse, c.scribble = true, i%2 == 1
+		return c
+	}); err != nil {
+		return err
+	}
+	lap("reuse")
+	// threshold / wide-row stream
+	var wide []*aeCase
+	if !skip("wide") {
+		wide = aeWideCases(rep.Seed, rich)
+	}
+	if err := aeSequences(rep, rp, len(wide), false, func(i int) *aeCase { return wide[i] }); err != nil {
+		return err
+	}
+	lap("wide")
 	if err := aeSequences(rep, rp, nSub, true, func(i int) *aeCase { return aeGenCase(NewRNG(rep.Seed, uint64(50_000_000+i)), rich) }); err != nil {
 		return err
 	}
@@ -1483,7 +1705,7 @@ func replayAnimEnc(in map[string]any) int {
 		fmt.Println(err)
 		return 2
 	}
-	fmt.Println("case:  ", fmt.Sprintf("%dx%d %s q=%d kmin=%d kmax=%d loop=%d frames=%d subimage=%v", c.w, c.h, c.mode(), c.quality, c.kmin, c.kmax, c.loop, len(c.frames), c.subimage))
+	fmt.Println("case:  ", fmt.Sprintf("%dx%d %s q=%d kmin=%d kmax=%d loop=%d frames=%d subimage=%v reuse=%v scribble=%v", c.w, c.h, c.mode(), c.quality, c.kmin, c.kmax, c.loop, len(c.frames), c.subimage, c.reuse, c.scribble))
 	fmt.Println("oracle:", g.oracle)
 	fmt.Println("steps: ", strings.Join(g.kinds, ","))
 	fmt.Println("go:    ", g.line, g.panicMsg)
